@@ -66,11 +66,11 @@ def run(ctx):
     ctx.set("value_classes", len({x["class"] for x in tb if x["kind"] == "member"}))
     ctx.set("class_members", nmem)
     if ctx.thorough:
-        # the spec is sharp: with the named deviation SizeRenderingRounds the abstract RoundTrip fails
+        # layer 1 describes the fixed code (ExactSize=TRUE); the named regression, re-enabled, must be detected
         x = vf.tlc(ctx, "ConfStore", "ConfStore_sizerounds.cfg", workers=2, timeout=300, allow_violation=True)
         if x.violated != "RoundTrip":
-            raise vf.Infra("self-test: ConfStore with ExactSize=FALSE did not violate RoundTrip")
-        ctx.set("selftest_design_counterexample", "ExactSize=FALSE violates RoundTrip (design-only)")
+            raise vf.Infra("self-test: the named regression SizeRenderingRounds (ExactSize=FALSE) is no longer detected by RoundTrip")
+        ctx.set("selftest_regression_detected", "SizeRenderingRounds (ExactSize=FALSE, code before efb98fd) violates RoundTrip in the model")
     cf = vf.write_ndjson(ctx.path("tables.ndjson"), tb)
     o1 = ctx.path("fields.ndjson")
     o2 = o1 + ".whole"
@@ -150,3 +150,5 @@ def run(ctx):
     ctx.assume("Core applies an edit as Clone; Patch*/ReplacePath; Validate (transcribed from core.go doAPIConfig*); the harness applies onto an "
                "independently built equal configuration instead of a Clone")
     ctx.assume("string parameters are valid UTF-8 (encoding/json replaces invalid bytes)")
+    ctx.assume("a nil list and an empty list are the same configuration value: every consumer reads both as 'no entries' and the API "
+               "renders both as []; before/after are compared with nil[] rendered as [] (nil vs non-nil POINTERS stay distinct)")
